@@ -73,9 +73,18 @@ def run(tier, seed, replay):
             db_todo = bool(cfg["services"]["db"].get("todo"))
             first["services"]["db"] = {"todo": False, "constructor": "NewA"} if db_todo else {"todo": True}
             files = [first, {"services": {"db": {"todo": True} if db_todo else {"todo": False, "constructor": "NewA"}}}]
+        if k % 4 == 2:
+            # the flag is set in the FIRST file only; a later overlay mentions every service again (adds a tag, a getter switch) without
+            # saying anything about todo: placeholders stay placeholders, ordinary services stay ordinary
+            base1 = json.loads(json.dumps(cfg))
+            for n_, sv_ in base1["services"].items():
+                if not sv_.get("todo"):
+                    sv_["must_getter"] = True
+                    sv_["getter"] = "Get" + n_.capitalize()
+            files = [base1, {"services": {n_: {"tags": ["late"]} for n_ in cfg["services"]}}]
         sp = common.mk_spec(k, files, keep_out=True)
         sp["cfg"] = cfg
-        sp["what"] = ["todo/override" + ("/two-files" if k % 2 else "")]
+        sp["what"] = ["todo/override" + ("/two-files" if k % 2 else "/overlay" if k % 4 == 2 else "")]
         specs.append(sp)
         # a probe process has ONE container: run the histories of this group back to back; later histories see earlier overrides,
         # which is just a longer history
@@ -90,6 +99,11 @@ def run(tier, seed, replay):
         specs = [dict(rp, id="0", dump=True, build_info="bi", keep_out=True)]
         allh = [rp["history"]]
     obs, rl, ml, acc = rtcommon.run_histories(out, tooldir, env, specs, allh, "C15 todo/override histories", "C15")
+    # todo parameters and services count as declared: every configuration of the directed family is valid by construction (whatever
+    # subset is marked todo, however the declaration is spread over files) and must be accepted
+    for k, (sp, ob) in enumerate(zip(specs, obs)):
+        if str((sp.get("what") or [""])[0]).startswith("todo/override") and ob.get("exit") != 0:
+            out.violation("valid-todo-configuration-rejected:" + sp["what"][0], "a configuration whose only peculiarity are todo placeholders is rejected: %s" % ((ob.get("errors") or [])[:3],), common.slim(sp, ob))
     # direct oracle on the real results: a todo parameter/service that was never overridden always errors with the documented message
     nontrivial = set()
     dist = {"ops": 0, "todo_errors": 0, "after_override_ok": 0}
@@ -115,6 +129,8 @@ def run(tier, seed, replay):
                     dist["todo_errors"] += 1
                     if not (line.startswith("E(") and "service todo" in line):
                         out.violation("todo-service-no-error", "Get(%s) on a todo service returns %s" % (o["name"], line[:200]), dict(common.slim(specs[k], obs[k]), history=allh[k]))
+                if not sv.get("todo") and o["name"] == "misc" and "service todo" in line:
+                    out.violation("ordinary-service-is-todo", "Get(misc): the service is not marked todo and depends on no placeholder, yet: %s" % line[:200], dict(common.slim(specs[k], obs[k]), history=allh[k]))
             nontrivial.add(o["op"] + line[:80])
     out.coverage.update({
         "evaluations": sum(len(h) for h in allh), "distinct_nontrivial": len(nontrivial), "programs": len(acc),
